@@ -11,6 +11,7 @@ import (
 	"sort"
 	"strings"
 	"sync"
+	"sync/atomic"
 	"time"
 
 	"golang.org/x/tools/go/ssa"
@@ -72,6 +73,7 @@ type Interp struct {
 	newCands []*Candidate
 	assumeKills int
 	boot     bool
+	ds       *domState
 	noSummaries bool
 	errT     types.Type
 	numErrT  types.Type
@@ -123,6 +125,7 @@ type Explorer struct {
 	AssumeKills int64
 	initG      *globalsInit
 	traceEvery int64
+	domForks   atomic.Int64
 	seed       int64
 }
 
@@ -222,7 +225,7 @@ func (ex *Explorer) runPath(s *Solver, it workItem) {
 	in := &Interp{prog: ex.prog, ex: ex, tab: NewTermTab(), solver: s, model: NewModel(it.model), prefix: it.prefix,
 		names: map[string]int{}, globals: map[*ssa.Global]*value{}, copied: map[interface{}]interface{}{},
 		budget: ex.budget, reach: map[string]int{}, cov: map[*ssa.BasicBlock]struct{}{}, params: ex.params,
-		asserts: map[string]*assertStat{}, harness: ex.harness}
+		asserts: map[string]*assertStat{}, harness: ex.harness, ds: newDomState()}
 	s.BeginPath()
 	end := in.execute(ex.entry)
 	s.EndPath()
@@ -367,13 +370,35 @@ func (in *Interp) pin(c *Term, v bool) {
 	}
 }
 
-// take adds c (or its negation) to the path condition.
+// take adds c (or its negation) to the path condition. Conditions over one byte variable only
+// refine that variable's value set; the rest is queued for the solver.
 func (in *Interp) take(c *Term, v bool) {
 	cond := c
 	if !v {
 		cond = in.tab.Not(c)
 	}
-	in.solver.Assert(cond)
+	if in.boot {
+		return
+	}
+	if domainMode != "off" {
+		if x, k := in.support(c); k == 1 {
+			T := in.truthSet(c, x)
+			D := in.domOf(x)
+			var nd bset
+			if v {
+				nd = D.and(T)
+			} else {
+				nd = D.andNot(T)
+			}
+			if nd != D {
+				in.setDom(x, nd)
+			}
+			in.pin(c, v)
+			return
+		}
+	}
+	in.markNonFree(cond, map[int]bool{})
+	in.ds.pending = append(in.ds.pending, cond)
 	in.pin(c, v)
 }
 
@@ -381,6 +406,11 @@ func (in *Interp) take(c *Term, v bool) {
 func (in *Interp) branch(c *Term) bool {
 	if v, ok := in.tab.cval(c); ok {
 		return v == 1
+	}
+	dv := in.domLook(c)
+	if dv.decided {
+		in.pin(c, dv.value)
+		return dv.value
 	}
 	if in.replaying() {
 		d := in.prefix[in.pos] == 1
@@ -390,23 +420,31 @@ func (in *Interp) branch(c *Term) bool {
 		return d
 	}
 	v := in.model.Eval(c) == 1
-	other := c
-	if v {
-		other = in.tab.Not(c)
-	}
-	verdict, m := in.solver.CheckWith(other, in.tab.vars)
-	switch verdict {
-	case Sat:
-		pre := make([]int32, len(in.decs)+1)
-		copy(pre, in.decs)
-		if v {
-			pre[len(in.decs)] = 0
-		} else {
-			pre[len(in.decs)] = 1
+	if dv.single && dv.free && domainMode != "check" {
+		// both sides possible and the variable is unconstrained otherwise: patch the model
+		m := make(map[string]uint64, len(in.model.vals))
+		for k, x := range in.model.vals {
+			m[k] = x
 		}
-		in.ex.push(workItem{prefix: pre, model: m})
-	case Unknown:
-		in.ex.noteInconclusive("branch in " + in.where())
+		if v {
+			m[dv.x.name] = uint64(dv.f.first())
+		} else {
+			m[dv.x.name] = uint64(dv.t.first())
+		}
+		in.ex.domForks.Add(1)
+		in.pushOther(v, m)
+	} else {
+		other := c
+		if v {
+			other = in.tab.Not(c)
+		}
+		verdict, m := in.check(other, true)
+		switch verdict {
+		case Sat:
+			in.pushOther(v, m)
+		case Unknown:
+			in.ex.noteInconclusive("branch in " + in.where())
+		}
 	}
 	if v {
 		in.decs = append(in.decs, 1)
@@ -416,6 +454,17 @@ func (in *Interp) branch(c *Term) bool {
 	in.pos++
 	in.take(c, v)
 	return v
+}
+
+func (in *Interp) pushOther(v bool, m map[string]uint64) {
+	pre := make([]int32, len(in.decs)+1)
+	copy(pre, in.decs)
+	if v {
+		pre[len(in.decs)] = 0
+	} else {
+		pre[len(in.decs)] = 1
+	}
+	in.ex.push(workItem{prefix: pre, model: m})
 }
 
 func (ex *Explorer) noteInconclusive(msg string) {
@@ -472,7 +521,7 @@ func (in *Interp) concretize(t *Term, what string) int64 {
 	excl := in.tab.Not(in.tab.Eq(t, in.tab.Const(t.w, v)))
 	seen := 1
 	for {
-		verdict, m := in.solver.CheckWith(excl, in.tab.vars)
+		verdict, m := in.check(excl, true)
 		if verdict != Sat {
 			if verdict == Unknown {
 				in.ex.noteInconclusive("concretize " + what)
